@@ -105,6 +105,19 @@ def py_mod(a, b):
     return a - b * py_floordiv(a, b)
 
 
+# Python scalars: `x / 0.0`, `x // 0.0`, `x % 0.0` and `0.0 ** -k` raise ZeroDivisionError exactly like the integer forms
+# (engine self-test: real_truediv, real_floordiv, real_mod, neg_pow_zero_base).  Array operands (SymArr) follow numpy /
+# torch and do not raise.  PYVC_REAL_DIV_ZERO=0 switches the check off (the pre-self-test behaviour).
+REAL_DIV_ZERO_RAISES = __import__("os").environ.get("PYVC_REAL_DIV_ZERO", "1") != "0"
+
+
+def _real_zero_check(b, msg):
+    if REAL_DIV_ZERO_RAISES and cur().branch(b == 0):
+        from .interp import RaiseSig
+
+        raise RaiseSig(ZeroDivisionError(msg))
+
+
 class Sym:
     __slots__ = ("t",)
 
@@ -219,6 +232,7 @@ class Sym:
 
                 raise RaiseSig(ZeroDivisionError("division by zero"))
             return z3.ToReal(a) / z3.ToReal(b)
+        _real_zero_check(b, "float division by zero")
         return a / b
 
     def __truediv__(self, o):
@@ -235,6 +249,7 @@ class Sym:
                 raise RaiseSig(ZeroDivisionError("integer division or modulo by zero"))
             return py_floordiv(a, b)
         # real floor division: floor(a/b)
+        _real_zero_check(b, "float floor division by zero")
         return z3.ToReal(z3.ToInt(a / b))
 
     def __floordiv__(self, o):
@@ -251,6 +266,7 @@ class Sym:
                 raise RaiseSig(ZeroDivisionError("integer division or modulo by zero"))
             return py_mod(a, b)
         # real modulo with positive/negative divisor: a - b*floor(a/b)
+        _real_zero_check(b, "float modulo by zero")
         return a - b * z3.ToReal(z3.ToInt(a / b))
 
     def __mod__(self, o):
@@ -283,6 +299,7 @@ class Sym:
             r = z3.RealVal(1)
             for _ in range(-o):
                 r = r * base
+            _real_zero_check(base, "0.0 cannot be raised to a negative power")
             return Sym(z3.RealVal(1) / r)
         from .reals import rpow
 
@@ -483,6 +500,19 @@ class SymArr:
 
     @property
     def size(self):
+        if getattr(getattr(self, "as_type", None), "__name__", "") == "Tensor":
+            # torch: `x.size()` / `x.size(d)` is a METHOD (numpy: `a.size` is the element count)
+            shape = self.shape
+
+            def size(dim=None):
+                if dim is None:
+                    return tuple(shape)
+                if not isinstance(dim, int) or not -len(shape) <= dim < len(shape):
+                    raise RaiseSigLazy(IndexError("Dimension out of range"))
+                return shape[dim]
+
+            size._sym_ok = True
+            return size
         return self.numel()
 
     def at(self, *idx):
@@ -728,6 +758,8 @@ class SymArr:
                 out_axes.append(("src", len(plan) - 1))
                 new_shape.append(ln)
             elif isinstance(k, SymArr) and k.ndim >= 1:
+                if k.kind == "bool":
+                    raise OutOfSubset("boolean mask indexing of a symbolic array is not modelled")
                 plan.append(("arr", k))
                 for d in k.shape:
                     new_shape.append(d)
@@ -742,6 +774,7 @@ class SymArr:
                 plan.append(("int", i))
             ax += 1
         srcfn = _snap_fn(self, view=not any(p[0] == "arr" for p in plan))
+        self_shape = self.shape
 
         def fn(*idx):
             idx = list(idx)
@@ -757,7 +790,15 @@ class SymArr:
                 else:
                     arr = plan[oa[1]][1]
                     v = arr.fn(*idx[pos : pos + oa[2]])
-                    srcidx[oa[1]] = lift(v)
+                    vt = lift(v)
+                    if z3.is_bool(vt):  # a mask computed by a comparison (its `kind` is informational only)
+                        raise OutOfSubset("boolean mask indexing of a symbolic array is not modelled")
+                    # negative entries of an index array count from the end (numpy / torch); arrays that are
+                    # non-negative by construction (arange, argsort / permutation bijections) are left as they are
+                    # (engine self-test: np_fancy_index_negative)
+                    if z3.is_int(vt) and not (hasattr(arr, "sigma") or arr.name == "arange"):
+                        vt = simp(z3.If(vt < 0, vt + lift(self_shape[oa[1]]), vt))
+                    srcidx[oa[1]] = vt
                     pos += oa[2]
             for j, p in enumerate(plan):
                 if p[0] == "int":
@@ -964,6 +1005,12 @@ class SymArr:
         return r
 
     def astype(self, dt, copy=True):
+        # real -> integer dtype truncates toward zero (numpy / torch); every other conversion keeps the values
+        # (engine self-test: np_astype_int)
+        if self.kind == "real" and _is_int_dtype(dt):
+            r = self.long()
+            r.pylist = False
+            return r
         return self.copy()
 
     def tolist(self):
@@ -975,6 +1022,17 @@ class SymArr:
         return [self[i] for i in range(ln)]
 
 
+
+
+def _is_int_dtype(dt):
+    """True for int / numpy integer dtypes / torch integer dtypes (by name, so torch need not be imported here)."""
+    if dt is int:
+        return True
+    if dt is float or dt is bool or dt is None:
+        return False
+    name = getattr(dt, "__name__", None) or str(dt)
+    name = name.replace("torch.", "").replace("numpy.", "")
+    return name in ("int", "int8", "int16", "int32", "int64", "long", "short", "intp", "int_", "uint8", "uint16", "uint32", "uint64", "integer")
 
 
 class RowMajor:
